@@ -1517,3 +1517,98 @@ func ruleDur9(c *Ctx) []*Ob {
 	}
 	return o.list
 }
+
+// ---------------------------------------------------------------- DEL-2
+
+func init() {
+	register(&Rule{
+		ID: "DEL-2",
+		Doc: "A superseded file really disappears: the callback that Store.removeFileOnClose registers with FileRef.OnAfterClose reaches os.Remove on every path - directly or through the goroutine / closures it starts " +
+			"(every path of each of them, to its return, passes the removal or the start of a closure that does). A removal that is conditional on bookkeeping (e.g. on the file being listed in fileRefMap, " +
+			"which only knows files this Store instance created) leaves the file a reopened store compacted away on disk.",
+		Props: []string{"C07", "C15"},
+		Floor: 1,
+		Run:   ruleDel2,
+	})
+}
+
+func ruleDel2(c *Ctx) []*Ob {
+	o := newObs(c, "DEL-2")
+	rf := c.Fn("(*Store).removeFileOnClose")
+	onAfter := c.Fn("(*FileRef).OnAfterClose")
+	isRemove := func(i ssa.Instruction) bool {
+		ci, ok := i.(ssa.CallInstruction)
+		return ok && isStaticCall(ci, "os", "Remove")
+	}
+	var always func(f *ssa.Function, depth int) (bool, string)
+	always = func(f *ssa.Function, depth int) (bool, string) {
+		if f == nil || f.Blocks == nil || depth > 3 {
+			return false, "closure body not found"
+		}
+		via := func(i ssa.Instruction) bool {
+			if isRemove(i) {
+				return true
+			}
+			var callee ssa.Value
+			switch x := i.(type) {
+			case *ssa.Go:
+				callee = x.Call.Value
+			case *ssa.Call:
+				callee = x.Call.Value
+			case *ssa.Defer:
+				callee = x.Call.Value
+			default:
+				return false
+			}
+			var g *ssa.Function
+			switch v := callee.(type) {
+			case *ssa.MakeClosure:
+				g, _ = v.Fn.(*ssa.Function)
+			case *ssa.Function:
+				g = v
+			}
+			if g == nil || g.Pkg != c.Moss {
+				return false
+			}
+			ok, _ := always(g, depth+1)
+			return ok
+		}
+		bad := ""
+		eachInstr(f, func(i ssa.Instruction) {
+			if _, isR := i.(*ssa.Return); !isR || bad != "" {
+				return
+			}
+			if !mustPrecede(f, i, via, nil) {
+				bad = c.instrPos(i)
+			}
+		})
+		if bad != "" {
+			return false, "a path of " + c.fname(f) + " reaches its return at " + bad + " without calling os.Remove"
+		}
+		return true, ""
+	}
+	n := 0
+	for _, k := range callsToFn(rf, onAfter) {
+		if len(k.Call.Args) < 2 {
+			continue
+		}
+		n++
+		var g *ssa.Function
+		for _, og := range origins(k.Call.Args[1]) {
+			if mc, ok := og.(*ssa.MakeClosure); ok {
+				g, _ = mc.Fn.(*ssa.Function)
+			}
+		}
+		ok, why := always(g, 0)
+		if ok {
+			why = "every path of the after-close callback (and of the goroutine it starts) removes the file"
+		} else {
+			why += ": the superseded data file can stay in the directory after its last reference is gone"
+		}
+		o.add(c.fname(rf), "after-close callback removes the file", c.instrPos(k), ok, why)
+	}
+	if n == 0 {
+		o.add(c.fname(rf), "after-close callback removes the file", c.pos(rf.Pos()), false, "anchor lost: removeFileOnClose registers no OnAfterClose callback")
+	}
+	return o.list
+}
